@@ -3,7 +3,7 @@ import ast
 
 from ..loader import norm, AnalysisError
 from .. import legs as lg
-from ..legs import LegError
+from ..legs import LegError, LegUnknown
 from ..legs_interp import LegInterp, ranks_from_asserts
 from ..match import pmatch
 from ..defuse import local_defs, expand
@@ -72,6 +72,8 @@ def rule_R1(chk, repo, vals, rid='C04.R1', only=None):
         try:
             fi, v, env = kernel_value(repo, name)
         except LegError as ex:
+            if isinstance(ex, LegUnknown):
+                raise           # not understood is not a finding
             fi = repo.func('operation.' + name)
             chk.ob(rid, where(repo, fi, fi.node), f'{name}: body is a well-formed contraction', False, str(ex),
                    key=f'{rid}|{name}|wellformed')
@@ -133,6 +135,8 @@ def rule_R2(chk, repo, vals, rid='C04.R2'):
                m1 == m2, f'differences: {sorted(set(m1) ^ set(m2))}', key=f'{rid}|overlap-left-right')
         n += 3
     except LegError as ex:
+        if isinstance(ex, LegUnknown):
+            raise           # not understood is not a finding
         chk.ob(rid, 'pytenet/operation.py', 'sibling networks can be closed', False, str(ex), key=f'{rid}|closing')
     # partner order
     for name, arg in (('apply_local_hamiltonian', 'A'), ('apply_local_bond_contraction', 'C'),
